@@ -12,7 +12,7 @@
    start-up comparisons: boundary observation); the clause "both contribute =>
    bounded by the peer cap" needs the peer cap below 2^62 ns, and
    C01_midpoint_refuted_beyond_2p62 shows that this is necessary. *)
-From ST Require Import Base.Ints Base.F64 Base.Sorting Model.NtpTime Model.Units Model.Ftm Model.Sync Proofs.SyncProofs.
+From ST Require Import Base.Ints Base.F64 Base.Sorting Model.NtpTime Model.Units Model.Ftm Model.Sync Proofs.SyncProofs Proofs.SyncDriftProofs.
 From Coq Require Import ZArith List Reals.
 From Flocq Require Import Core.Core IEEE754.BinarySingleNaN.
 Import ListNotations.
@@ -152,12 +152,55 @@ Proof. exact measure_facts. Qed.
 Print Assumptions C01_stale_round_still_int64.
 
 (* SystemClock.Drift with the configured drift 0 (clocks.UnknownDrift) reports MaxInt64: the caps are then
-   beyond every int64 and nothing is ever clamped - the bound holds trivially.  That Drift is otherwise
-   drift x interval up to float64 rounding (2^-48 relative + 1 ns) is NOT proved in Coq; it is enforced by the
-   oracle C01_drift_ok on every Drift result the implementation produces in a run. *)
+   beyond every int64 and nothing is ever clamped - the bound holds trivially. *)
 Theorem C01_unknown_drift_is_maxint : forall d, sysclk_drift 0 d = max_i64.
 Proof. exact unknown_drift. Qed.
 Print Assumptions C01_unknown_drift_is_maxint.
+
+(* SystemClock.Drift is drift x interval: for every int64 drift (ns per s) and every int64 interval the model of
+   Drift (six float64 roundings, one truncation) satisfies the drift oracle, i.e. for 0 < drift_ns, 0 < interval,
+   drift_ns * interval < 2^62 * 1e9:  |D * 1e9 - drift_ns * interval| * 2^48 <= 1e9 * 2^48 + drift_ns * interval
+   (1 ns + 2^-48 relative); outside that range the oracle asks nothing. *)
+Theorem C01_drift_close : forall drift_ns interval, in_i64 drift_ns -> in_i64 interval ->
+  C01_drift_ok drift_ns interval (sysclk_drift drift_ns interval) = true.
+Proof. exact sysclk_drift_close. Qed.
+Print Assumptions C01_drift_close.
+
+(* the same, readable and four times sharper than the oracle needs (2^-50 relative): Drift is a non-negative
+   int64 within 1 ns + 2^-50 x of the exact allowance drift_ns * interval / 1e9 ns *)
+Theorem C01_drift_within_1ns_2p50 : forall drift_ns interval,
+  0 < drift_ns <= max_i64 -> 0 < interval <= max_i64 -> drift_ns * interval < 2^62 * 1000000000 ->
+  let D := sysclk_drift drift_ns interval in
+  0 <= D <= max_i64 /\ Z.abs (D * 1000000000 - drift_ns * interval) * 2^50 <= 1000000000 * 2^50 + drift_ns * interval.
+Proof. exact sysclk_drift_bound. Qed.
+Print Assumptions C01_drift_within_1ns_2p50.
+
+(* in real numbers: Drift is the floor of a number P within 2^-50 (relative) of drift_ns * interval / 1e9; in
+   particular Drift never exceeds the exact allowance by more than that factor (the truncation only lowers it) *)
+Theorem C01_drift_is_floor_of_near_product : forall drift_ns interval,
+  0 < drift_ns <= max_i64 -> 0 < interval <= max_i64 -> drift_ns * interval < 2^62 * 1000000000 ->
+  exists P : R, sysclk_drift drift_ns interval = (Zfloor P) /\ (IZR (drift_ns * interval) / 1000000000 * (1 - / 1125899906842624) <= P <= IZR (drift_ns * interval) / 1000000000 * (1 + / 1125899906842624))%R.
+Proof. exact sysclk_drift_real. Qed.
+Print Assumptions C01_drift_is_floor_of_near_product.
+
+(* an allowance above 1 ns per round is reported as a positive Drift (Run starts); below 1 ns Drift is 0 (Run refuses) *)
+Theorem C01_drift_positive_above_1ns : forall drift_ns interval,
+  0 < drift_ns <= max_i64 -> 0 < interval <= max_i64 -> drift_ns * interval < 2^62 * 1000000000 ->
+  (1000000000 < drift_ns * interval -> 0 < sysclk_drift drift_ns interval) /\ (drift_ns * interval < 1000000000 -> sysclk_drift drift_ns interval = 0).
+Proof. exact sysclk_drift_pos. Qed.
+Print Assumptions C01_drift_positive_above_1ns.
+
+(* End to end for the real SystemClock: a correction c that passes the code's comparison against the cap
+   factor (x) float64(Drift(interval)) is bounded by the EXACT product factor x drift x interval (drift in ns/s,
+   interval in ns, result in ns) up to 2^-49 relative - the nine roundings of Drift, of the cap and of the
+   comparison together.  (1 <= factor: admissible factors exceed 1.) *)
+Theorem C01_bound_vs_exact_product : forall f drift_ns interval c,
+  is_finite f = true -> (1 <= B2R f)%R ->
+  0 < drift_ns <= max_i64 -> 0 < interval <= max_i64 -> drift_ns * interval < 2^62 * 1000000000 -> Z.abs c <= 2^64 ->
+  is_finite (cap f (sysclk_drift drift_ns interval)) = true -> within c (cap f (sysclk_drift drift_ns interval)) = true ->
+  (IZR (Z.abs c) <= B2R f * (IZR (drift_ns * interval) / 1000000000) * (1 + / 562949953421312))%R.
+Proof. exact within_cap_exact_product. Qed.
+Print Assumptions C01_bound_vs_exact_product.
 
 (* Boundary observation: with a drift allowance of 3e18 ns per round (95 years) and the default factors the
    two bounded values are further apart than 2^63, Midpoint wraps and the correction leaves the peer cap. *)
@@ -175,3 +218,13 @@ Example C01_hypotheses_inhabited :
   is_finite (c_ref wit_cfg) = true /\ is_finite (c_peer wit_cfg) = true /\ inadmissible wit_cfg = false /\
   cap_ok (cap (c_ref wit_cfg) 100000) /\ flt (cap (c_peer wit_cfg) 100000) two62f = true.
 Proof. exact history_hypotheses_inhabited. Qed.
+
+(* the hypotheses of the drift theorems are satisfiable: drift 50 us/s, interval 1 s *)
+Example C01_drift_hypotheses_inhabited :
+  sysclk_drift 50000 1000000000 = 50000 /\ C01_drift_ok 50000 1000000000 50000 = true /\ C01_drift_ok 50000 1000000000 50002 = false.
+Proof. exact sysclk_drift_close_inhabited. Qed.
+
+Example C01_bound_vs_exact_product_inhabited :
+  let f := c_peer wit_cfg in
+  is_finite f = true /\ flt fone f = true /\ sysclk_drift 50000 1000000000 = 50000 /\ is_finite (cap f (sysclk_drift 50000 1000000000)) = true /\ within 1000 (cap f (sysclk_drift 50000 1000000000)) = true.
+Proof. exact within_cap_exact_product_inhabited. Qed.
